@@ -70,8 +70,10 @@ package scheduler
 //@ func (Config).New
 //@   ghost ngo int = 0
 //@   requires c.Concurrency >= 0
+//@   requires flush-frequency-not-negative: c.StateFlushFrequency >= 0
 //@   at go 1 ghost ngo = ngo + 1
 //@   at go 2 ghost ngo = ngo + 1
+//@   at go 2 assert [C19,C05] the-loop-gets-a-positive-flush-frequency-and-the-configured-emitter: arg2 > 0 && implies(old(c.StateFlushFrequency) != 0, arg2 == old(c.StateFlushFrequency)) && arg1 == c.Emitter
 //@   ensures [C03,C19] concurrency-configured: implies(old(c.Concurrency) != 0, result.concurrency == old(c.Concurrency))
 //@   ensures [C03,C19] concurrency-default: implies(old(c.Concurrency) == 0, result.concurrency == ite(gomaxprocs() < 4, 4, gomaxprocs()))
 //@   ensures [C03,C06] donec-capacity: cap(result.donec) == result.concurrency
